@@ -1808,8 +1808,13 @@ def _isfinite(interp, v, *a, **k):
     if isinstance(v, SReal):
         t = fin_term(v)
         return t.val if t.is_const else SBool(t)
-    if isinstance(v, (SInt, SBool)):
+    if isinstance(v, SBool):
         return True
+    if isinstance(v, SInt):
+        # numpy converts a Python int to int64 / uint64; beyond that it becomes an object array, which the ufunc rejects
+        if interp.ctx.branch(tm.mk_and(tm.mk_le(tm.const(-2 ** 63), v.t), tm.mk_lt(v.t, tm.const(2 ** 64)))):
+            return True
+        interp.raise_(TypeError, "ufunc 'isfinite' not supported for the input types")
     if isinstance(v, SComplex):
         t = tm.app('complex_isfinite', (v.t,), tm.BOOL)
         return SBool(t)
